@@ -1,6 +1,6 @@
 """C04 - hand-written backward passes return the true gradient.
 specs: specs/qsim/{Grad,Sim_Grad}.tla (circuit reverse sweep), specs/qsim/{KL,MC_KL}.tla (Knill-Laflamme inner product)"""
-import random
+import random, math
 import numpy as np
 from .. import tlc, core
 from ..qsim import *
@@ -207,6 +207,19 @@ def run_sylvester(ctx):
                     kind = 'degenerate' if len(set(map(tuple, cfg['t']))) < len(cfg['t']) else 'generic'
                     ctx.violation('C04:PSDMatrixSqrtm:backward:%s' % kind, 'backward of the matrix root (repeat=%d, %s spectrum%s) differs from the solution of the Sylvester equation' % (cfg['r'], kind, ', batched' if batched else ''), dict(data, expected=X.tolist(), got=gr.tolist()))
                     break
+            # Pade matrix logarithm at the scalar instances A = c I (all roots equal): log is analytic with d log(A)[H] = H / c there, so the
+            # gradient of <G, logm(A)> is exactly G / c (Sylvester.tla, LogScalar); the forward value is log(c) I
+            if len(set(map(tuple, cfg['t']))) == 1:
+                c = (cfg['t'][0][0] / cfg['t'][0][1]) ** (2 * cfg['r'])
+                op = numqi._torch_op.get_PSDMatrixLogm(6, 8)
+                At = torch.tensor(A, dtype=torch.float64, requires_grad=True)
+                out = op(At)
+                if core.gt(np.abs(out.detach().numpy() - math.log(c) * np.eye(cfg['n'])).max(), 1e-8):
+                    ctx.violation('C04:PSDMatrixLogm:forward', 'logm(c I) differs from log(c) I', dict(data, c=c))
+                (out * torch.tensor(G).T).sum().backward()
+                ctx.evaluations += 1
+                if core.gt(np.abs(At.grad.numpy() - G / c).max(), 1e-7):
+                    ctx.violation('C04:PSDMatrixLogm:backward:scalar', 'backward of the Pade logarithm at A = c I differs from G / c', dict(data, c=c, got=At.grad.numpy().tolist()))
         except Exception as ex:
             ctx.violation('C04:exception:PSDMatrixSqrtm', type(ex).__name__ + ': ' + str(ex)[:160], data)
         ctx.traces += 1
@@ -219,7 +232,7 @@ def run(ctx):
                 'Gaussian-integer code words (forward and backward); distinct by program / instance')
     ctx.assumptions = ['TLC/SANY correct', 'tolerance 1e-9 (float64)', 'angles on the pi/2 grid (phases pi/4): index, ordering, accumulation and conjugation errors are angle independent']
     ctx.tolerances = {'float64': TOL}
-    ctx.not_covered = ['Pade matrix logarithm backward (transcendental - no exact model; its building block, the repeated PSD square root, IS covered)', 'PSD square root at singular matrices (not differentiable there)',
+    ctx.not_covered = ['Pade matrix logarithm backward away from scalar matrices (transcendental divided differences - no exact model; covered: A = c I, where the gradient is G / c, and its building block, the repeated PSD square root)', 'PSD square root at singular matrices (not differentiable there)',
                        'losses of the variational models other than the Knill-Laflamme L2 loss (exact quartic form in MC_KL)', 'an error in a trigonometric derivative formula that vanishes on the angle grid']
     for cfg, num in [('3', 50 if quick else 500), ('2', 30 if quick else 300)]:
         r = tlc.run('qsim/Sim_Grad.tla', 'qsim/Sim_Grad_%s.cfg' % cfg, simulate=dict(num=num, file=True), depth=9, seed=ctx.seed + 5, workers=8, timeout=3000)
